@@ -199,7 +199,7 @@ macro_rules! api_mldsa {
                     ok(fmt_sig(s.as_ref().map(|x| &x[..])))
                 }
                 // SecretKey::prehash_sign sk MSG ctx hedged ph tape   (the harness passes the message; the model gets the digest)
-                ("SecretKey::prehash_sign", 6) => {
+                ("SecretKey::prehash_sign", 7) => {
                     let sk = unhex(a[0])?; let msg = unhex(a[1])?; let ctx = opt_bytes(a[2])?; let hedged = a[3] == "1"; let p = ph(a[4])?; let tape = unhex(a[5])?;
                     let k = api::SecretKey::from_bytes(&sk);
                     let s = with_tape(&tape, || k.prehash_sign(&msg, ctx.as_deref(), hedged, p));
@@ -210,7 +210,7 @@ macro_rules! api_mldsa {
                     let k = api::PublicKey::from_bytes(&pk);
                     ok(k.verify(&msg, &sig, ctx.as_deref()).to_string())
                 }
-                ("PublicKey::prehash_verify", 5) => {
+                ("PublicKey::prehash_verify", 6) => {
                     let pk = unhex(a[0])?; let msg = unhex(a[1])?; let sig = unhex(a[2])?; let ctx = opt_bytes(a[3])?; let p = ph(a[4])?;
                     let k = api::PublicKey::from_bytes(&pk);
                     ok(k.prehash_verify(&msg, &sig, ctx.as_deref(), p).to_string())
